@@ -157,7 +157,7 @@ def ensure_facts(config='default', repo=None, quiet=False):
         lock.close()
 
 
-def _prune_cache(keep, limit=40):
+def _prune_cache(keep, limit=600):
     try:
         ents = [(os.path.getmtime(os.path.join(CACHE, e)), e) for e in os.listdir(CACHE) if e != keep]
         ents.sort()
